@@ -131,3 +131,15 @@ UTILS_IMPORTS = ("From Coq Require Import ZifyBool.\n"
 def utils_obligations():
     return tie("UtilsSrc", os.path.join("verde", "utils.py"), UTILS_FUNCS, "pylite_utils.v.tmpl",
                UTILS_THEOREMS, UTILS_IMPORTS)
+
+
+CHECKS_FUNCS = ["check_data_names", "check_extra_coords_names"]
+CHECKS_THEOREMS = ["src_check_data_names_eq", "src_check_extra_coords_names_eq"]
+CHECKS_IMPORTS = "From Verde Require Import Model.Checks Proofs.PyLiteBridge."
+
+
+def checks_obligations():
+    """verde/base/utils.py argument checks against Model/Checks.v (property C20); to hook it:
+    `obligations = pylite_tie.checks_obligations` in harness/c20.py"""
+    return tie("ChecksSrc", os.path.join("verde", "base", "utils.py"), CHECKS_FUNCS, "pylite_checks.v.tmpl",
+               CHECKS_THEOREMS, CHECKS_IMPORTS)
